@@ -93,8 +93,13 @@ def param_cases(contract):
 
 def initial_state(eng, key, contract, kinds):
     relpath, qual = key.split("::")
-    mod = src_module(relpath, eng.cset.root)
-    node = mod.func(qual)
+    if relpath == "lemma":
+        # an obligation without code: parameters are universally quantified, `requires` are the hypotheses
+        mod = eng.cset.spec_mod
+        node = ast.parse("def %s(%s):\n    pass\n" % (qual, ", ".join(contract.get("params") or {}))).body[0]
+    else:
+        mod = src_module(relpath, eng.cset.root)
+        node = mod.func(qual)
     st = State()
     st.frames[0] = ({}, None, mod)
     st.cur = 0
@@ -135,6 +140,8 @@ def initial_state(eng, key, contract, kinds):
         tree = tfresh(k, "p_" + name)
         v = SV(k, tree)
         st.pc.append(valid_tree(k, tree, st.nref))
+        if k.tag == "obj" and k.extra in ("Graph", "DiGraph"):
+            st.pc.extend(eng.nx_graph_wf(st, v))       # A-nx-graph: data-structure invariant of networkx graphs
         st = eng.bind(st, name, v)
     return st, mod, node
 
@@ -195,6 +202,11 @@ def verify_function(eng, key, case_kinds=None, label_suffix=""):
                 kd = parse_kind(rk)
                 result = eng.coerce(eng.materialize(result, kd) if not isinstance(result, tuple) else eng.tup_to_sv(result), kd,
                                     what="return value")
+            # staged intermediate assertions (proved first, then available as facts): they only add consequences
+            for i, cl in enumerate(c.get("hints") or []):
+                g = eng.eval_spec(cl, s, {"result": result})
+                eng.emit(s, "assert", "hint[%d]" % i, g)
+                s = s.assume(g)
             for exc, cond in raises.items():
                 g = eng.eval_spec("old(%s)" % cond, s, {"result": result})
                 eng.emit(s, "post", "no-%s" % exc, z3.Not(g))
@@ -229,7 +241,7 @@ def collect_symbols(e, cache):
     """names of uninterpreted symbols occurring in a z3 expression"""
     eid = e.get_id()
     if eid in cache:
-        return cache[eid]
+        return cache[eid][1]
     out = set()
     stack = [e]
     seen = set()
@@ -247,7 +259,7 @@ def collect_symbols(e, cache):
             if d.kind() == z3.Z3_OP_UNINTERPRETED:
                 out.add(d.name())
             stack.extend(t.children())
-    cache[eid] = out
+    cache[eid] = (e, out)      # keep the term alive: z3 ids are only unique among live terms
     return out
 
 
